@@ -177,6 +177,12 @@ class Executor:
             return v.arr
         if isinstance(v, VSetView):
             return z3.Select(st.heap[v.ref.id].data, to_z3(v.idx))
+        if isinstance(v, VArrView):
+            c = st.heap[v.ref.id]
+            sub = ArrContent(c.shape[len(v.prefix):], arr_select(c.data, v.prefix), c.kind)
+            return S.SpecArr(sub, v.ref)
+        if v is _UNSET:
+            return None
         return v
 
     def view(self, st, extra=None):
@@ -574,6 +580,14 @@ class Executor:
                         r = z3.If(z3.Or(idx == k, idx == k - len(items)), to_z3(items[k]), r)
                     return r
             raise OutOfSubset('index %r into tuple/list at line %d' % (idx, node.lineno))
+        if isinstance(base, VArrView):
+            c = st.heap[base.ref.id]
+            ix = idx if isinstance(idx, VTuple) else VTuple((idx,))
+            k0 = len(base.prefix)
+            if len(ix) != c.ndim - k0 or any(isinstance(i, slice) for i in ix):
+                raise OutOfSubset('partial indexing of an array view at line %d' % node.lineno)
+            eff = [self.index_value(st, c, i, c.shape[k0 + k], node, 'array axis %d' % (k0 + k)) for k, i in enumerate(ix)]
+            return arr_select(c.data, list(base.prefix) + eff)
         if isinstance(base, VPtr):
             c = st.heap[base.ref.id]
             flat = self.binop(st, ast.Add(), base.offset, idx, node)
@@ -650,6 +664,14 @@ class Executor:
             ix = ix + [slice(None, None, None)] * (c.ndim - len(ix))
         if len(ix) != c.ndim:
             raise OutOfSubset('slice with too many indices at line %d' % node.lineno)
+        # leading integer indices followed by full slices: a writable view of the trailing axes
+        nlead = 0
+        while nlead < len(ix) and not isinstance(ix[nlead], slice):
+            nlead += 1
+        if 0 < nlead < len(ix) and all(isinstance(i, slice) and i.start is None and i.stop is None and i.step is None for i in ix[nlead:]) \
+                and not getattr(c, 'readonly', False):
+            pre = [self.index_value(st, c, i, c.shape[k], node, 'array axis %d' % k) for k, i in enumerate(ix[:nlead])]
+            return VArrView(base, pre)
         newshape, binders, sel = [], [], []
         for k, i in enumerate(ix):
             if isinstance(i, slice):
@@ -697,6 +719,16 @@ class Executor:
         return r
 
     def subscript_store(self, st, base, idx, val, node):
+        if isinstance(base, VArrView):
+            c = st.heap[base.ref.id]
+            ix = idx if isinstance(idx, VTuple) else VTuple((idx,))
+            k0 = len(base.prefix)
+            if len(ix) != c.ndim - k0 or any(isinstance(i, slice) for i in ix):
+                raise OutOfSubset('partial store through an array view at line %d' % node.lineno)
+            eff = [self.index_value(st, c, i, c.shape[k0 + k], node, 'array axis %d' % (k0 + k)) for k, i in enumerate(ix)]
+            val = self.elem_coerce(st, c, val, node)
+            c.data = arr_store(c.data, list(base.prefix) + eff, to_z3(val))
+            return
         if isinstance(base, VMapView):
             c = st.heap[base.ref.id]
             p_ = to_z3(base.idx)
@@ -965,7 +997,7 @@ class Executor:
                 return slice(lo, hi, step)
             if (lo is None or (isinstance(lo, int) and lo == 0)) and step is None and is_int(hi):
                 return slice(None, hi, None)     # a[:n] with symbolic n
-            raise OutOfSubset('symbolic slice at line %d' % node.lineno)
+            return VOpaque('symbolic slice')     # only usable on unmodelled values
         if isinstance(node, ast.Tuple):
             return VTuple(self.ev_index(e, st) for e in node.elts)
         return self.ev(node, st)
@@ -1186,9 +1218,11 @@ class Executor:
             st.env[tgt.id] = val
             return
         if isinstance(tgt, (ast.Tuple, ast.List)):
-            vals = self.iter_values(st, val, node) if not isinstance(val, VOpaque) else None
-            if vals is None:
-                raise OutOfSubset('unpacking unmodelled value at line %d' % node.lineno)
+            if isinstance(val, VOpaque):
+                for t in tgt.elts:
+                    self.assign_target(st, t, VOpaque('item of ' + val.what), node)
+                return
+            vals = self.iter_values(st, val, node)
             if len(vals) != len(tgt.elts):
                 self.oblige(st, 'safe:unpack', node, False, 'unpacking %d values into %d targets' % (len(vals), len(tgt.elts)))
                 return
@@ -1291,7 +1325,12 @@ class Executor:
         m = getattr(self, 'x_' + type(s).__name__, None)
         if m is None:
             raise OutOfSubset('statement %s at line %d' % (type(s).__name__, s.lineno))
-        return m(s, st)
+        res = m(s, st)
+        stop = self.contract.options.get('stop_after')
+        if stop and self.cur_fn is self.fn and re.search(stop, self.cur_fn.srcfile.line(s.lineno)):
+            # the contract only concerns the code up to this statement
+            res = [(s2, ('return', VOpaque('rest of the function not modelled')) if o is None else o) for (s2, o) in res]
+        return res
 
     def x_Pass(self, s, st):
         return [(st, None)]
@@ -1419,7 +1458,8 @@ class Executor:
 
     def x_Assert(self, s, st):
         t = self.truth(st, self.ev(s.test, st), s)
-        self.oblige(st, 'safe:assert', s, t, 'assert statement holds')
+        if self.contract.options.get('assert_mode') != 'assume':
+            self.oblige(st, 'safe:assert', s, t, 'assert statement holds')
         self.assume(st, t)
         self.ghost_hook(s, st)
         return [(st, None)]
@@ -1586,6 +1626,9 @@ class Executor:
             return VSetVal(z3.Const(fresh_name(name), v.arr.sort()), v.elem_sort)
         if isinstance(v, (VSetView, VMapView, VNested)):
             return v
+        if isinstance(v, VArrView):
+            # the view variable is re-bound every iteration before use; its prefix is unknown at the loop head
+            return _UNSET
         if isinstance(v, VFunc):
             return v
         if isinstance(v, VTuple):
@@ -1841,7 +1884,7 @@ class Executor:
                 refs_to_havoc.append(v)
             elif isinstance(v, VPtr):
                 refs_to_havoc.append(v.ref)
-            elif isinstance(v, (VSetView, VMapView)):
+            elif isinstance(v, (VSetView, VMapView, VArrView)):
                 refs_to_havoc.append(v.ref)
         for n in sorted(names):
             if n in head.env and isinstance(head.env[n], (Ref, VPtr)):
